@@ -90,3 +90,33 @@ Section SkelPH08.
   Proof. intros; eapply repopulate_moves; eassumption. Qed.
 End SkelPH08.
 Print Assumptions C08_code_repopulate_moves.
+
+(* ---- the RANKING OF DONORS AS TRANSLATED (Gen/G_cm_ranked.v; facts: Proofs/GenEquivAR.v): `sorted`, descending, of exactly the candidates
+   selected by  size >= 2 * min_cluster_size  on the model given, keyed by a function of the spreads computed on that same model ---- *)
+From Ticc Require Import Gen.PySkel Gen.G_cm_ranked Proofs.GenEquivAR.
+Section SkelAR08.
+  Local Open Scope string_scope.
+  Variable V : Type.
+  Variable vnone : V.
+  Variable vint : Z -> V.
+  Variable as_int : V -> option Z.
+  Variable veq : V -> V -> bool.
+  Variable getattr : V -> string -> V.
+  Variable truthy : V -> bool.
+  Variable is_none : V -> bool.
+  Variables vtrue vfalse : V.
+  Variable as_list : V -> list V.
+  Variable vglobal : string -> V.
+  Variable oracle : list (event V) -> string -> list V -> res V.
+  Let ranked_events := GenEquivAR.ranked_events V vtrue.
+  Theorem C08_code_ranked_donors (model r : V) (log log' : list (event V)) :
+    g_find_ranked_donor_cluster_ids V vtrue oracle model log = (Ret r, log') ->
+    exists cands spreads keyfn,
+      log' = (log ++ ranked_events model cands spreads keyfn)%list /\
+      oracle log f_cands [model] = Ret cands /\
+      oracle (log ++ firstn 1 (ranked_events model cands spreads keyfn))%list f_spreads [model] = Ret spreads /\
+      oracle (log ++ firstn 2 (ranked_events model cands spreads keyfn))%list f_keyfn [spreads] = Ret keyfn /\
+      oracle (log ++ firstn 3 (ranked_events model cands spreads keyfn))%list "sorted(key=,reverse=)" [cands; keyfn; vtrue] = Ret r.
+  Proof. intros; eapply ranked_returns; eassumption. Qed.
+End SkelAR08.
+Print Assumptions C08_code_ranked_donors.
